@@ -153,9 +153,19 @@ func RunMonitor(a MonArgs) int {
 			}
 		}
 		for _, c := range r.crashes {
-			cs := p.Gen(a.Ctx, c.I)
-			raw, _ := json.Marshal(cs)
-			v := Violation{Sig: "crash@" + c.Frame, Detail: "worker process died (" + c.Status + ") while executing this case\n" + c.Tail, Case: raw}
+			var cs any
+			var raw []byte
+			if a.Replay == "" {
+				cs = p.Gen(a.Ctx, c.I)
+				raw, _ = json.Marshal(cs)
+			} else { // the cases of a replay come from the file
+				var sc storedCases
+				if b, err := os.ReadFile(a.Replay); err == nil && json.Unmarshal(b, &sc) == nil && c.I < len(sc.Cases) {
+					raw = sc.Cases[c.I]
+					cs, _ = p.Decode(raw)
+				}
+			}
+			v := Violation{Sig: "crash@" + crashSig(p, cs, c.Frame), Detail: "worker process died (" + c.Status + ") while executing this case\n" + c.Tail, Case: raw}
 			viols = append(viols, Event{Ev: "viol", I: c.I, Viol: &v})
 		}
 		for _, i := range r.timeouts {
@@ -193,7 +203,11 @@ func RunMonitor(a MonArgs) int {
 				}
 			}
 			for _, c := range kr.crashes {
-				v := Violation{Sig: "crash@" + c.Frame, Detail: c.Tail, Case: sc.Cases[c.I]}
+				sig := c.Frame
+				if dc, err := p.Decode(sc.Cases[c.I]); err == nil {
+					sig = crashSig(p, dc, c.Frame)
+				}
+				v := Violation{Sig: "crash@" + sig, Detail: c.Tail, Case: sc.Cases[c.I]}
 				failed[c.I] = append(failed[c.I], Event{Ev: "viol", I: c.I, Viol: &v})
 			}
 			agg.Evals += kr.summary.Evals
@@ -522,4 +536,24 @@ func readShard(out string, r *shardResult) bool {
 		}
 	}
 	return done
+}
+
+// CrashTagger lets a property refine the signature of a process-fatal crash
+// ("<kind>:<innermost vuego function>") with what is specific about the case -
+// the kind of data that was walked, or, where the function in which the
+// process happens to die varies from run to run (memory exhaustion), a name for
+// the case instead of the function - so that a recorded finding covers neither
+// more nor less than the crash it describes. "" keeps the default.
+type CrashTagger interface {
+	CrashTag(c any, kind, fn string) string
+}
+
+func crashSig(p Prop, c any, frame string) string {
+	if t, ok := p.(CrashTagger); ok && c != nil {
+		kind, fn, _ := strings.Cut(frame, ":")
+		if sig := t.CrashTag(c, kind, fn); sig != "" {
+			return sig
+		}
+	}
+	return frame
 }
